@@ -51,7 +51,8 @@ func (prop) Sweep(string) []kernel.Scenario { return nil }
 
 func (prop) Describe() kernel.Description {
 	return kernel.Description{
-		Rule: "one run = one security scheme under test (basic with realm / apiKey in header or query with a generated key name / oauth2 bearer; plain or context-aware constructor) " +
+		Rule: "Dimensions added with the seed waves: a fixed query parameter named like the credential in the pattern or base path; debug mode; an earlier call through the same writer objects whose streamed payload fails; a failing member among composed writers; the server-side context already cancelled; API-key location in any letter case; Submit through the tracing wrappers; rotated default credentials, decoy parameters, a rival bearer scheme, a body cut while the only token arrives; four server doors. " +
+			"one run = one security scheme under test (basic with realm / apiKey in header or query with a generated key name / oauth2 bearer; plain or context-aware constructor) " +
 			"registered through the real security.* constructor around a recording callback, one secured operation with required scopes, and one client call through the wire bridge whose " +
 			"credentials come from a tape-drawn composition of the real client writers (BasicAuth, APIKeyAuth header/query, BearerToken, Compose of 1–3 of them in any order), placed as " +
 			"per-operation auth, as Runtime.DefaultAuthentication, as both, or as default with an Authorization header pre-set by the params writer; bearer tokens additionally in the " +
